@@ -52,7 +52,8 @@ func strByte(L *LState) int {
 		end = l + end + 1
 	}
 
-	if L.GetTop() == 2 {
+	if L.GetTop() <= 2 || L.Get(3) == LNil {
+		// the default value for j is i
 		if start < 0 || start >= l {
 			return 0
 		}
